@@ -30,7 +30,7 @@ from concurrent.futures import ThreadPoolExecutor
 from typing import Any
 
 from mc import c06_gen, corpus
-from mc.common import Ctx, Result, Violation, log, scratch, seeded_order
+from mc.common import Ctx, Result, Violation, scratch, seeded_order
 from mc.kernel import ExecError, pmap, run_isolated
 
 PROPERTY = "C06"
@@ -108,6 +108,9 @@ def _compile_and_check(job: dict) -> dict:
 
     patch = job.get("patch")
     if patch:
+        import mypy.build  # noqa: F401  (import order: mypy first, as every real entry point does)
+        import mypyc.codegen.emitmodule  # noqa: F401
+
         exec(compile(open(patch).read(), patch, "exec"), {})
     root = scratch("c06", f"w{os.getpid()}")
     st = c06_ir.compile_program(job["kind"], root, job["case"], job["main"], job["files"], obs)
@@ -147,9 +150,11 @@ def static_violations(file: str, case: str, funcs: list[dict], lane: str = "corp
     for (mod, cls, name), stages in by_fn.items():
         a = stages.get("refcount", {"violations": []})
         b = stages.get("final", {"violations": []})
-        seen_a = {(v["kind"], v["at"], v["value"]) for v in a["violations"]}
+        # later passes rename values (copy propagation), so "the same violation" is judged by kind: a kind that the
+        # function already shows right after refcount insertion is not re-attributed to the later passes
+        kinds_a = {v["kind"] for v in a["violations"]}
         todo = [("refcount", v, a) for v in a["violations"]]
-        todo += [("later-pass", v, b) for v in b["violations"] if (v["kind"], v["at"], v["value"]) not in seen_a]
+        todo += [("later-pass", v, b) for v in b["violations"] if v["kind"] not in kinds_a]
         done: set = set()
         for attr, v, rec in todo:
             key = (attr, v["kind"], v["at"], v["value"])
@@ -224,14 +229,14 @@ def _run_driver(job: dict, tag: str, timeout: float) -> dict:
 
 
 def dynamic_lane(work: str, lane: str, mod: str, source: str, specs: list[dict], split: int, patch: str | None,
-                 calls: int | None = None) -> dict:
+                 calls: int | None = None, opt: str = "0") -> dict:
     from mc.c06_build import build
 
-    d = os.path.join(work, mod)
+    d = os.path.join(work, f"{mod}-O{opt}")
     t0 = time.time()
-    b = build({"dir": d, "mod": mod, "source": source, "opt": "0", "patch": patch,
+    b = build({"dir": d, "mod": mod, "source": source, "opt": opt, "patch": patch,
                "extra_files": {"c06trk.py": c06_gen.TRACK_MODULE, mod + "_ref.py": source}})
-    out: dict = {"lane": lane, "mod": mod, "build_ok": b["ok"], "build_seconds": b["seconds"], "lib_rt": b["lib_rt"],
+    out: dict = {"lane": lane, "mod": mod, "opt": opt, "build_ok": b["ok"], "build_seconds": b["seconds"], "lib_rt": b["lib_rt"],
                  "static": b["static"], "results": [], "crashes": [], "harness_errors": []}
     if not b["ok"]:
         out["harness_errors"].append(f"mypyc build of {mod} failed rc={b['rc']}: {b['log'][-2500:]}")
@@ -353,9 +358,12 @@ def undef_verdicts(dyn: dict) -> tuple[list[Violation], list[str], Counter, list
 
 def start_dynamic(ctx: Ctx, work: str, patch: str | None = None) -> list:
     """Launch the dynamic lanes on threads (they spend their time in subprocesses)."""
-    ex = ThreadPoolExecutor(max_workers=4)
+    ex = ThreadPoolExecutor(max_workers=6)
     futs = [("conformance", ex.submit(dynamic_lane, work, "conformance", "c06conf", c06_gen.conformance_source(),
                                       c06_gen.conformance_specs(), 1, patch))]
+    if ctx.thorough:
+        futs.append(("conformance-O3", ex.submit(dynamic_lane, work, "conformance", "c06conf", c06_gen.conformance_source(),
+                                                 c06_gen.conformance_specs(), 1, patch, None, "3")))
     types = ["obj", "int", "i64"]
     for t in types:
         futs.append((f"undef-{t}", ex.submit(dynamic_lane, work, "undef", f"c06und_{t}",
@@ -392,6 +400,7 @@ def run(ctx: Ctx, only_files: list[str] | None = None, patch: str | None = None,
     per_file: dict[str, Counter] = {}
     biggest = {"states": 0}
     malformed: list[str] = []
+    not_compiled: list[str] = []
     for _i, batch, st, val in pmap(run_batch, batches, fresh=False, timeout=7200):
         if st != "ok":
             herr.append(f"batch failed: {val}")
@@ -405,6 +414,8 @@ def run(ctx: Ctx, only_files: list[str] | None = None, patch: str | None = None,
                 herr.append(f"{r['file']}::{r['case']}: {s}: {r['error']}")
                 continue
             if s != "ok":
+                if s != "skipped":
+                    not_compiled.append(f"{r['file']}::{r['case']}: {s}: {(r['status'].get('messages') or ['?'])[0][:140]}")
                 continue
             pf["compiled"] += 1
             for f in r["functions"]:
@@ -509,6 +520,7 @@ def run(ctx: Ctx, only_files: list[str] | None = None, patch: str | None = None,
         "ops_final_ir": tot["ops"], "tracked_values": tot["tracked_values"],
         "untracked_address_taken_registers": tot["escaped_registers"],
         "malformed_ir_functions_not_checkable": sorted(malformed)[:10],
+        "cases_rejected_by_mypy_or_mypyc": sorted(not_compiled)[:60],
         "capped_functions": tot["capped_functions"], "arg_null_combos_capped": tot["arg_null_combos_capped"],
         "functions_with_alarm_after_refcount": tot["functions_with_alarm_refcount"],
         "functions_with_alarm_final": tot["functions_with_alarm_final"],
@@ -539,6 +551,7 @@ def run(ctx: Ctx, only_files: list[str] | None = None, patch: str | None = None,
 def replay(ctx: Ctx, rec: dict) -> Result:
     d = rec["detail"]
     viol: list[Violation] = []
+    scratch("c06")  # create the scratch root in THIS process so forked children share (and we remove) it
     if d.get("lane") == "static" and d.get("source") == "corpus":
         cases = [c for c in corpus.load_file(os.path.join(corpus.MYPYC_DATA, d["file"])) if c.name == d["case"]]
         job = case_job(cases[0])
